@@ -144,3 +144,18 @@ pub fn env_with(env: &Environment, pp: pallas_validate::utils::MultiEraProtocolP
         acnt: env.acnt().as_ref().map(|a| pallas_validate::utils::AccountState { treasury: a.treasury, reserves: a.reserves }),
     }
 }
+
+/// protocol parameters with other fee coefficients / size limit (so that a mutation that
+/// changes the size of a transaction does not run into the fee or size rules)
+pub fn with_fee_size_params(pp: &pallas_validate::utils::MultiEraProtocolParameters, a: u32, b: u32, max: u32) -> pallas_validate::utils::MultiEraProtocolParameters {
+    use pallas_validate::utils::MultiEraProtocolParameters as PP;
+    let mut p = pp.clone();
+    match &mut p {
+        PP::Shelley(x) => { x.minfee_a = a; x.minfee_b = b; x.max_transaction_size = max; }
+        PP::Alonzo(x) => { x.minfee_a = a; x.minfee_b = b; x.max_transaction_size = max; }
+        PP::Babbage(x) => { x.minfee_a = a; x.minfee_b = b; x.max_transaction_size = max; }
+        PP::Conway(x) => { x.minfee_a = a; x.minfee_b = b; x.max_transaction_size = max; }
+        _ => {}
+    }
+    p
+}
